@@ -97,6 +97,13 @@ CHECKS["C12"] = {
     "note": "Trusted: rustc's type checker, trait solver and borrow checker. Programs outside the corpus are covered only by the universal rules.",
 }
 
+CHECKS["C14"] = {
+    "technique": "MIR abstract interpretation with interpreted atoms (min, >>1, &1, chunk length) and relational merge facts: capacity / clamp / coverage / case-selection obligations of every unchecked operation in hex.rs",
+    "text": "PARTIAL CLAIM. Not decided: the digit strings themselves (byte values, nibble order, per-chunk ordering, the exact total across chunks, equality with the SIMD encoder) - those are numerical results that need execution. Decided statically, with N and the precision symbolic, under F0/F1 and (thorough) F2 = faster-hex: the digit budget is exactly min(precision, 2N) and <= 2N at every use; bytes = (d>>1)+(d&1), the unreachable_unchecked guarding max_bytes > N is infeasible and 2*bytes >= digits; small path (only under N <= 1024): buffer extent 2N, every encoder call has dst.len() >= 2*src.len(), the printed prefix lies within the buffer; large path: 2048-byte buffer, chunks of <= 1024 bytes, printed prefix min(2*chunk, digits_left) within the buffer and never above the remaining budget; the capacity precondition behind hex_encode_fallback's unreachable_unchecked / faster_hex's unwrap_unchecked holds at each call site; LowerHex/UpperHex instantiate UPPER = false/true and the constant digit tables are keyed by UPPER. Each is a necessary condition of the property (its violation is UB or missing/excess characters).",
+    "design_ref": "DESIGN.md §3 C14, §4",
+    "note": TRUST + " faster_hex's documented contract (fails only on an undersized destination) and slice::chunks are trusted.",
+}
+
 NOT_APPLICABLE = {}
 
 PENDING = "check under construction in this round; see DESIGN.md"
